@@ -379,7 +379,7 @@ class MechWorld:
         stopped = "EngineStopped" in box
         if started and not failed and not self.stop_sent and not self.torn:
             res.append(("rc", "stop"))
-        if not self.torn and (failed or stopped):
+        if not self.torn and (failed or (stopped and not self.plan)):
             res.append(("rc", "teardown"))
         if self.plan and stopped and not failed and not self.torn and self.alive(self.M) and self.drained():
             res.append(("rc", "restart"))
@@ -425,7 +425,7 @@ class MechWorld:
         if faults and self.fault == "none" and self.listening():
             d = self.inst(self.D)
             for ip in sorted(self.up):
-                if ip_str(ip) not in d.remotes:
+                if ip in self.remote_targets() and ip_str(ip) not in d.remotes:
                     res.append(("leave", ip))
         return res
 
